@@ -5,7 +5,7 @@
    a fair Async drainer always brings the wait group to zero (Stop returns). The refutation shows the one
    history class on which it does not (an accept landing after the snapshot, finding D11).
    Runtime facts (goroutines and descriptors released) are observed by the harness, not proved. *)
-Require Import StopModel StopProofs StopObs.
+Require Import PollerStop PollerStopProofs StopModel StopProofs StopObs.
 From Coq Require Import List ZArith Bool Lia.
 Import ListNotations.
 
@@ -56,8 +56,26 @@ Example c18_example :
   ph (run false init [AOpen; AOpen; AClose 0; AStopBegin; ARunJob; ARunJob; ARunJob; AStopReturn]) = Returned.
 Proof. vm_compute. reflexivity. Qed.
 
+(* the last phase of Stop: the stop request to a poller is never lost, whenever the poller goroutine begins to run -
+   before, between or after the request (fix e3ced4a, D42) *)
+Theorem c18_poller_stop_not_lost before after :
+  ps (own_moves false (prun false pinit (before ++ PStop :: after))) = PExited.
+Proof. exact (stop_not_lost before after). Qed.
+
+(* and no poller ever busy-loops on the never-drained event descriptor *)
+Theorem c18_poller_never_spins acts : spinning (prun false pinit acts) = false.
+Proof. exact (never_spins acts). Qed.
+
+(* the code before the fix: Stop requested before the goroutine begins is overwritten; the poller spins for ever *)
+Theorem c18_poller_stop_old_refuted n :
+  let p := prun true pinit ([PStop; PBegin] ++ repeat PIter n) in ps p = PRunning /\ spinning p = true.
+Proof. exact (old_stop_lost n). Qed.
+
 Print Assumptions c18_accounting.
 Print Assumptions c18_notified_before_return.
 Print Assumptions c18_terminates.
 Print Assumptions c18_late_open_refuted.
 Print Assumptions c18_model_logs_are_legal.
+Print Assumptions c18_poller_stop_not_lost.
+Print Assumptions c18_poller_never_spins.
+Print Assumptions c18_poller_stop_old_refuted.
